@@ -226,7 +226,7 @@ replay = replay_c
 
 
 # ------------------------------------------------------------------ negative controls
-BASELINE_VIOLATIONS = ("pointer_arithmetic.non_null", "read_of_uninitialised_local", "measure_rsp_cb.resp.nul_terminated_string")
+BASELINE_VIOLATIONS = ()       # the four findings of the first run (H10 and friends) are repaired in /repo (ca51b88)
 MUTANTS = [
     (CT.TRX_IF_C, "read_len = read(ofd->fd, buf, sizeof(buf) - 1);", "read_len = read(ofd->fd, buf, sizeof(buf));", "trx_ctrl_read_cb_store.in_bounds"),
     (CT.TRX_IF_C, "\tbuf[read_len] = '\\0';\n", "", "trx_ctrl_read_cb_str"),
